@@ -3,11 +3,15 @@ C10 CODE MODEL: `DBusObjectHandler.handleMethodCallMessage` (txdbus/objects.py:7
 `DBusObject.executeMethod`, the decorated-method cache (`_iterIFaceCaches`, `_cacheInterfaces`,
 `_searchCache`, `_getDecoratedMethod`), `_set_method_flags`, the nested `send_reply` /
 `send_error`, and the reply constructors of txdbus/message.py, as the code is written (after
-repair C10-01: `send_error` escapes NUL in the text it sends).
+repairs C10-01: `send_error` escapes NUL in the text it sends, and C10-02: a failure while
+building the GetManagedObjects reply is answered with an error).
 
 What is a parameter (`Env`), not modelled here:
   * `encErr sig body`  - does `MethodReturnMessage(serial, body=body, signature=sig, ...)` raise,
                          and with which exception (the wire codec is C01/C02's);
+  * `managedErr path`  - does building the GetManagedObjects reply (`getManagedObjects(path)`,
+                         C16's, and its `MethodReturnMessage`) raise, e.g. on a property value
+                         that does not fit a variant;
   * `ofSeq vs`         - a Python list / tuple taken as ONE value (`[return_values]`);
   * `validErr name`    - `marshal.validateErrorName(name)` returns (C18's validator);
   * `textFix text`     - what `send_error` makes of the text before `ErrorMessage(...)`:
@@ -92,8 +96,10 @@ def peerPair : Str × Str := tblPair 0
 def introspectPair : Str × Str := tblPair 1
 def managedPair : Str × Str := tblPair 2
 def unknownObject : Str × Str := tblErr 0
-def unknownMethod : Str × Str := tblErr 1
-def invalidArgs : Str × Str := tblErr 2
+/-- repair C10-02: the error sent when building the GetManagedObjects reply raises. -/
+def managedFailed : Str × Str := tblErr 1
+def unknownMethod : Str × Str := tblErr 2
+def invalidArgs : Str × Str := tblErr 3
 def pyExceptionPrefix : Str := Gen.Dispatch.pyExceptionPrefix.toList
 def invalidNameNotice : Str := Gen.Dispatch.invalidNameNotice.toList
 def invalidErrorName : Str := Gen.Dispatch.invalidErrorName.toList
@@ -215,6 +221,7 @@ inductive Event (V : Type) where
 /-- Parameters (see the header). -/
 structure Env (V : Type) where
   encErr : Str → List V → Option Exc
+  managedErr : Str → Option Exc
   ofSeq : List V → V
   validErr : Str → Bool
   textFix : Str → Option Str
@@ -409,7 +416,11 @@ def handleCall {V : Type} (env : Env V) (ex : Exports) (k : Nat) (c : Call V)
     | some o =>
       -- if msg.interface == '...ObjectManager' and msg.member == 'GetManagedObjects'
       if c.iface = some managedPair.1 ∧ c.member = managedPair.2 then
-        ([.sent (.ret c.serial c.sender (some "a{oa{sa{sv}}}".toList) (.managed c.path))], none)
+        -- try: i_and_p = self.getManagedObjects(...); r = MethodReturnMessage(...)
+        -- except Exception as e: self._send_err(msg, '...Failed', '... %s' % (e,))      (repair C10-02)
+        match env.managedErr c.path with
+        | none => ([.sent (.ret c.serial c.sender (some "a{oa{sa{sv}}}".toList) (.managed c.path))], none)
+        | some e => ([sendErr c managedFailed.1 (pyFormat managedFailed.2 [e.text])], none)
       else
         match lookupMethod o c.iface c.member with
         | none =>
